@@ -94,8 +94,8 @@ def _check_inverse_xyz(x, y, z, case):
 def check_inverse_from_geodetic(case):
     a, invf = S.ellipsoid_params(case["ell"])
     x, y, z = closed_form(case["lat"], case["lon"], case["h"], a, invf)
-    if math.hypot(x, y) <= 1e-3:
-        raise Discard()     # on (or within 1 mm of) the rotation axis: excluded by the statement
+    if not math.hypot(x, y) > 0.0:
+        raise Discard()     # on the rotation axis: excluded by the statement (the closed form of lat = +-90 is ~4e-10 m off it)
     _check_inverse_xyz(x, y, z, case)
 
 
@@ -111,7 +111,7 @@ def check_inverse_direct(case):
         # p given directly (down to 1 mm from the axis), z from the radius
         p = min(p, r)
         z = math.copysign(math.sqrt(max(r * r - p * p, 0.0)), case["zsign"])
-    if p <= 1e-3:
+    if not p > 0.0:
         raise Discard()
     lam = math.radians(case["az"])
     x, y = p * math.cos(lam), p * math.sin(lam)
@@ -157,7 +157,7 @@ inv_direct_cases = st.fixed_dictionaries({
     "mode": st.sampled_from(["dir", "dir", "p"]),
     "elev": st.one_of(S.floats(-90, 90), st.sampled_from([0.0, 45.0, -45.0, 89.9999, -89.9999])),
     "az": st.one_of(S.floats(-180, 180), st.sampled_from([0.0, 90.0, -90.0, 180.0, -180.0, 135.0, -135.0])),
-    "p": S.log_uniform(1.1e-3, 6.4e6),
+    "p": st.one_of(S.log_uniform(1e-12, 6.4e6), S.log_uniform(1e-3, 6.4e6)),
     "zsign": st.sampled_from([1.0, -1.0]),
     "r_off": st.one_of(S.floats(-1e4, 3.99e7), S.floats(-1e4, 1e4), st.just(0.0)),
     "ell": S.ellipsoid_spec()})
